@@ -35,6 +35,9 @@ func scaleCases(tier string) []scalekit.Case {
 	for _, n := range scale.Sizes(48, 257) {
 		out = append(out, scalekit.Case{Shape: "many-uses", N: n})
 	}
+	for n := 0; n <= 20; n++ {
+		out = append(out, scalekit.Case{Shape: "uses-substatements", N: n})
+	}
 	return out
 }
 
@@ -163,6 +166,95 @@ func checkScale(cs scalekit.Case) scalekit.Verdict {
 				case deviated && x.root == b && c.Dir["gc"].Dir["gli"].ListAttr.MaxElements != 2:
 					return scalekit.Bad("deviation-of-one-copy-lost", "max-elements 2", fmt.Sprint(c.Dir["gc"].Dir["gli"].ListAttr.MaxElements))
 				}
+			}
+		}
+	case "uses-substatements":
+		// the nodes of a grouping carry n if-feature, n must and n extension statements; three uses
+		// statements, in the defining and in another module, add an if-feature, a when and an
+		// extension statement of their own. Every copy must be what it is when its uses statement is
+		// the only one: what one uses statement adds must not show in the copies of another.
+		usesText := func(i int) string {
+			return fmt.Sprintf(`uses G { if-feature u%d; when "%d = %d"; a:ext "use%d"; }`, i, i, i, i)
+		}
+		mods := func(which []int) []dump.File {
+			var sb strings.Builder
+			sb.WriteString(`module a { namespace "urn:a"; prefix a; extension ext { argument v; }`)
+			for i := 0; i < 4; i++ {
+				fmt.Fprintf(&sb, " feature u%d;", i)
+			}
+			for i := 0; i < cs.N; i++ {
+				fmt.Fprintf(&sb, " feature f%d;", i)
+			}
+			body := func(pfx string) string {
+				var b strings.Builder
+				for i := 0; i < cs.N; i++ {
+					fmt.Fprintf(&b, ` if-feature f%d; must "%d"; %sext "g%d";`, i, i, pfx, i)
+				}
+				return b.String()
+			}
+			fmt.Fprintf(&sb, ` grouping g { leaf x { type string;%s } container c {%s leaf y { type string; } } leaf-list z { type string;%s } }`, body("a:"), body("a:"), body("a:"))
+			var sa, sbm strings.Builder
+			for _, i := range which {
+				u := strings.Replace(usesText(i), "uses G", "uses g", 1)
+				if i%2 == 0 {
+					fmt.Fprintf(&sa, " container k%d { %s }", i, u)
+				} else {
+					fmt.Fprintf(&sbm, " container k%d { %s }", i, strings.Replace(strings.Replace(u, "uses g", "uses a:g", 1), "if-feature u", "if-feature a:u", 1))
+				}
+			}
+			sb.WriteString(sa.String() + " }")
+			return []dump.File{{Name: "a.yang", Text: sb.String()}, {Name: "b.yang", Text: `module b { namespace "urn:b"; prefix b; import a { prefix a; }` + sbm.String() + ` }`}}
+		}
+		inst := func(ms *yang.Modules, i int) string {
+			root := yang.ToEntry(ms.Modules["a"])
+			if i%2 == 1 {
+				root = yang.ToEntry(ms.Modules["b"])
+			}
+			var sb strings.Builder
+			dump.Entry(&sb, root.Dir[fmt.Sprintf("k%d", i)], "", dump.Options{}, map[*yang.Entry]bool{})
+			// ... and what the other substatements kept on every node say, not only how many there are
+			var walk func(e *yang.Entry, path string)
+			walk = func(e *yang.Entry, path string) {
+				var ks []string
+				for k := range e.Extra {
+					ks = append(ks, k)
+				}
+				sortStrings(ks)
+				for _, k := range ks {
+					fmt.Fprintf(&sb, "%s %s:", path, k)
+					for _, v := range e.Extra[k] {
+						if n, ok := v.(yang.Node); ok {
+							fmt.Fprintf(&sb, " %q", n.NName())
+						} else {
+							fmt.Fprintf(&sb, " %v", v)
+						}
+					}
+					sb.WriteString("\n")
+				}
+				var cs []string
+				for k := range e.Dir {
+					cs = append(cs, k)
+				}
+				sortStrings(cs)
+				for _, k := range cs {
+					walk(e.Dir[k], path+"/"+k)
+				}
+			}
+			walk(root.Dir[fmt.Sprintf("k%d", i)], "")
+			return sb.String()
+		}
+		all := []int{0, 1, 2, 3}
+		msAll, errs, lerr := scalekit.Load(mods(all), false)
+		if lerr != nil || len(errs) > 0 {
+			return scalekit.Bad("spurious-errors", "loads and processes", fmt.Sprint(lerr, dump.Errors(errs)))
+		}
+		for _, i := range all {
+			msOne, errs, lerr := scalekit.Load(mods([]int{i}), false)
+			if lerr != nil || len(errs) > 0 {
+				return scalekit.Bad("spurious-errors", "loads and processes", fmt.Sprint(lerr, dump.Errors(errs)))
+			}
+			if want, got := inst(msOne, i), inst(msAll, i); want != got {
+				return scalekit.Bad("copy-changes-with-the-other-uses-statements", want, got)
 			}
 		}
 	case "grouping-chain":
